@@ -608,7 +608,7 @@ def run_into(chk: Check, pid: str, tier: str) -> None:
     elif pid == 'C06':
         # the set the bundled client's replica offers to its playing system, at
         # every decision of sessions with passed-out boards in every position
-        jobs = normal_jobs(r, 30 if quick else 1500, 'o', max_boards=4)
+        jobs = normal_jobs(r, 30 if quick else 600, 'o', max_boards=4)
         for (_, cfg, _, _) in jobs:
             cfg['offers'] = True
             cfg['vary'] = False
